@@ -11,6 +11,7 @@ from typing import (
 )
 
 from pdfminer import utils
+from pdfminer.casting import safe_float
 from pdfminer.pdfcolor import PDFColorSpace
 from pdfminer.pdffont import PDFFont, PDFUnicodeNotDefined
 from pdfminer.pdfpage import PDFPage
@@ -170,7 +171,7 @@ class PDFTextDevice(PDFDevice):
         (x, y) = pos
         for obj in seq:
             if isinstance(obj, (int, float)):
-                x -= obj * dxscale
+                x -= (safe_float(obj) or 0.0) * dxscale
             elif isinstance(obj, bytes):
                 for cid in font.decode(obj):
                     x += self.render_char(
@@ -212,7 +213,7 @@ class PDFTextDevice(PDFDevice):
         (x, y) = pos
         for obj in seq:
             if isinstance(obj, (int, float)):
-                y -= obj * dxscale
+                y -= (safe_float(obj) or 0.0) * dxscale
             elif isinstance(obj, bytes):
                 for cid in font.decode(obj):
                     y += self.render_char(
